@@ -64,12 +64,16 @@ def cases(draw):
     else:
         c.update({"obj": draw(objects(max_sections=3)), "pick": draw(st.integers(0, 10**6))})
     if kind == "failing":
-        c["failure"] = draw(st.sampled_from(["input-missing", "binary-on-text", "config-type", "undefined-macro", "rule-missing", "empty-group"]))
+        c["failure"] = draw(st.sampled_from(["input-missing", "binary-on-text", "config-type", "undefined-macro", "rule-missing", "empty-group", "objdump-absent", "objdump-absent"]))
     return c
 
 
 def strategy(tier):
     return cases()
+
+
+def _api(rule_path, input_path, opts, macros, binary):
+    return jasm_io.match_files(rule_path, input_path, mode="list", search="all" if opts["all"] else "first", only_addr=opts["only_addr"], macros=macros, binary=binary)
 
 
 def evaluate(case):
@@ -132,8 +136,26 @@ def evaluate(case):
             rule_path = sc.path("c20_missing_rule.yaml")
         elif f == "empty-group":
             rule_path = sc.write("c20_rule.yaml", jasm_io.rule_text(jasm_io.make_doc(list(pattern) + [{"$or": []}], macros=doc_macros)))
+    path_override = None
+    if kind == "failing" and case["failure"] == "objdump-absent":
+        # -b on a real object, but no objdump on PATH
+        if not binary:
+            from vlib.elfw import make_elf
+
+            input_path = sc.write("c20_noobjdump.o", make_elf([(".text", bytes.fromhex("554889e5c3"), True)], [("main", 1, 0)]))
+            binary = True
+        d = sc.path("c20_emptybin")
+        os.makedirs(d, exist_ok=True)
+        path_override = d
     # ---- API
-    api = jasm_io.match_files(rule_path, input_path, mode="list", search="all" if opts["all"] else "first", only_addr=opts["only_addr"], macros=macros, binary=binary)
+    saved_path = os.environ.get("PATH")
+    if path_override is not None:
+        os.environ["PATH"] = path_override
+    try:
+        api = _api(rule_path, input_path, opts, macros, binary)
+    finally:
+        if path_override is not None:
+            os.environ["PATH"] = saved_path
     if api[0] == "inconclusive":
         ev.inconclusive += 1
         return ev
@@ -154,7 +176,7 @@ def evaluate(case):
     if macros:
         # --macros takes nargs='+': keep it last so that it cannot swallow other arguments
         args += ["--macros", *macros]
-    rc, out, err = jasm_io.cli(args, cwd)
+    rc, out, err = jasm_io.cli(args, cwd, env_extra={"PATH": path_override} if path_override is not None else None)
     ev.subcases = 2
     reported = [m.group(1) for ln in err.split("\n") for m in [LINE.search(ln)] if m]
     found_line = "RESULT: Pattern found" in err
